@@ -73,4 +73,93 @@ theorem setSendingNonce_eq (ts : TS) (n : UInt64) :
     ts.setSendingNonce n = ts.withSend { ts.sendCs with n := n } := by
   unfold setSendingNonce withSend sendCs; cases h : ts.initiator <;> simp
 
+abbrev MAXN : UInt64 := CipherState.nonceMax
+
+/-- Transport states that can receive / send: keys installed (always true after `split`) and not
+    the forbidden side of a one-way pattern (C11). -/
+def CanRecv (ts : TS) : Prop :=
+  ts.recvCs.hasKey = true ∧ ¬ (ts.initiator = true ∧ ts.oneway = true)
+
+def Guards (ts : TS) (d : Bytes) (cap : Nat) : Prop :=
+  d.length ≤ 65535 ∧ 16 ≤ d.length ∧ d.length - 16 ≤ cap ∧ ts.recvCs.n ≠ MAXN
+
+instance (ts : TS) (d : Bytes) (cap : Nat) : Decidable (Guards ts d cap) := by unfold Guards; infer_instance
+
+theorem read_guards_ok (S : Suite) (ts : TS) (d : Bytes) (cap : Nat) (h : CanRecv ts) (g : Guards ts d cap) :
+    ts.readMessage S d cap =
+      match S.dec ts.recvCs.key ts.recvCs.n [] d with
+      | none => (.err .decrypt, ts, S.decFailBuf d cap, [.dec ts.recvCs.key ts.recvCs.n [] d false])
+      | some p => (.ok p, ts.withRecv { ts.recvCs with n := ts.recvCs.n + 1 }, S.decOkBuf d p cap,
+                   [.dec ts.recvCs.key ts.recvCs.n [] d true]) := by
+  obtain ⟨hk, hw⟩ := h
+  obtain ⟨hl, h16, hc, hn⟩ := g
+  have h1 : (ts.initiator && ts.oneway) = false := by
+    cases hi : ts.initiator <;> cases ho : ts.oneway <;> simp_all
+  have h0 : ¬ d.length > 65535 := by omega
+  rw [readMessage_eq, CipherState.decryptAd_eval h16 hc hk hn]
+  simp only [h0, h1, ↓reduceIte, Bool.false_eq_true]
+  cases S.dec ts.recvCs.key ts.recvCs.n [] d with
+  | none => simp [withRecv_self]
+  | some p => simp
+
+theorem read_guards_fail (S : Suite) (ts : TS) (d : Bytes) (cap : Nat) (h : CanRecv ts) (g : ¬ Guards ts d cap) :
+    ∃ e, ts.readMessage S d cap = (.err e, ts, [], []) := by
+  obtain ⟨hk, hw⟩ := h
+  have h1 : (ts.initiator && ts.oneway) = false := by
+    cases hi : ts.initiator <;> cases ho : ts.oneway <;> simp_all
+  rw [readMessage_eq]
+  by_cases h0 : d.length > 65535
+  · exact ⟨.input, by simp [h0]⟩
+  · simp only [h0, h1, ↓reduceIte, Bool.false_eq_true]
+    unfold CipherState.decryptAd
+    by_cases c1 : d.length < 16 ∨ cap < d.length - 16
+    · have : (decide (d.length < 16) || decide (cap < d.length - 16)) = true := by simpa using c1
+      exact ⟨.decrypt, by simp [this, withRecv_self]⟩
+    · have c1' : (decide (d.length < 16) || decide (cap < d.length - 16)) = false := by
+        simpa using c1
+      have hnn : ts.recvCs.n = MAXN := by
+        apply Classical.byContradiction
+        intro hne
+        exact g ⟨by omega, by omega, by omega, hne⟩
+      exact ⟨.state .exhausted, by simp [c1', hk, hnn, MAXN, withRecv_self]⟩
+
+
+def CanSend (ts : TS) : Prop :=
+  ts.sendCs.hasKey = true ∧ ¬ (ts.initiator = false ∧ ts.oneway = true)
+
+def WGuards (ts : TS) (p : Bytes) (cap : Nat) : Prop :=
+  p.length + 16 ≤ 65535 ∧ p.length + 16 ≤ cap ∧ ts.sendCs.n ≠ MAXN
+
+theorem write_guards_ok (S : Suite) (ts : TS) (p : Bytes) (cap : Nat) (h : CanSend ts) (g : WGuards ts p cap) :
+    ts.writeMessage S p cap =
+      (.ok (S.enc ts.sendCs.key ts.sendCs.n [] p), ts.withSend { ts.sendCs with n := ts.sendCs.n + 1 },
+       [.enc ts.sendCs.key ts.sendCs.n [] p]) := by
+  obtain ⟨hk, hw⟩ := h
+  obtain ⟨hl, hc, hn⟩ := g
+  have h1 : (!ts.initiator && ts.oneway) = false := by
+    cases hi : ts.initiator <;> cases ho : ts.oneway <;> simp_all
+  have h2 : (decide (p.length + 16 > 65535) || decide (p.length + 16 > cap)) = false := by
+    simp; omega
+  rw [writeMessage_eq, CipherState.encryptAd_eval hk hn hc]
+  simp only [h1, h2, ↓reduceIte, Bool.false_eq_true]
+
+theorem write_guards_fail (S : Suite) (ts : TS) (p : Bytes) (cap : Nat) (h : CanSend ts) (g : ¬ WGuards ts p cap) :
+    ∃ e, ts.writeMessage S p cap = (.err e, ts, []) := by
+  obtain ⟨hk, hw⟩ := h
+  have h1 : (!ts.initiator && ts.oneway) = false := by
+    cases hi : ts.initiator <;> cases ho : ts.oneway <;> simp_all
+  rw [writeMessage_eq]
+  by_cases h2 : p.length + 16 > 65535 ∨ p.length + 16 > cap
+  · have : (decide (p.length + 16 > 65535) || decide (p.length + 16 > cap)) = true := by simpa using h2
+    exact ⟨.input, by simp only [h1, this, ↓reduceIte, Bool.false_eq_true]⟩
+  · have h2' : (decide (p.length + 16 > 65535) || decide (p.length + 16 > cap)) = false := by simpa using h2
+    have hnn : ts.sendCs.n = MAXN := by
+      apply Classical.byContradiction
+      intro hne
+      exact g ⟨by omega, by omega, hne⟩
+    refine ⟨.state .exhausted, ?_⟩
+    simp only [h1, h2', ↓reduceIte, Bool.false_eq_true]
+    unfold CipherState.encryptAd
+    simp [hk, hnn, MAXN, withSend_self]
+
 end SnowVerif.Model.TS
